@@ -102,6 +102,9 @@ def text_labels(vals: list) -> frozenset:
 
 def concat_str(I, parts: list, st) -> Any:
     flat: list = []
+    hook = I.probes.get("str")
+    if hook is not None:
+        parts = [(hook(I, p, st) if isinstance(p, Opaque) and hook(I, p, st) is not None else p) for p in parts]
     for p in parts:
         if isinstance(p, str):
             flat.extend(p)
@@ -1169,6 +1172,11 @@ def b_str(I, args, kwargs, st, node):
     if isinstance(v, int) and not isinstance(v, bool):
         return [(str(v), st)]
     if isinstance(v, Opaque):
+        hook = I.probes.get("str")
+        if hook is not None:
+            r = hook(I, v, st)
+            if r is not None:
+                return [(r, st)]
         return [(new_text((), "str(" + v.cls + ")"), st)]
     if isinstance(v, Term) and v.head.split(".")[-1] in ("Path", "PurePath", "PosixPath") and len(v.args) == 1 and isinstance(v.args[0], str) \
             and "/" not in v.args[0] and v.args[0] not in ("", "."):
@@ -1480,7 +1488,18 @@ def _ext_chain_from_iterable(I, args, kwargs, st, node):
     return _ext_chain(I, list(outer), kwargs, st, node)
 
 
+def _ext_attrgetter(I, args, kwargs, st, node):
+    from .absval import LambdaV
+
+    if len(args) == 1 and isinstance(args[0], str) and args[0].isidentifier():
+        lam = ast.parse(f"lambda __o: __o.{args[0]}", mode="eval").body
+        return [(LambdaV(lam, {}, None), st)]
+    st.note("operator.attrgetter with several / dotted names")
+    return [(Unknown("attrgetter"), st)]
+
+
 EXT_CALLS = {
+    "ext:operator.attrgetter": _ext_attrgetter,
     "ext:itertools.chain": _ext_chain,
     "ext:itertools.chain.from_iterable": _ext_chain_from_iterable,
 }
